@@ -48,6 +48,9 @@ type MCMap struct {
 	ResKey string
 	// OmitName leaves out the /CMapName entry (ResKey must be set)
 	OmitName bool
+	// NoDict leaves out `12 dict begin` ... `end`: the definitions land in the
+	// dictionary that is current (the CIDInit procedure set in RenderFile)
+	NoDict bool
 }
 
 var blockKinds = []string{"codespacerange", "cidchar", "cidrange", "bfchar", "bfrange", "notdefchar", "notdefrange"}
@@ -246,7 +249,9 @@ func (m *MCMap) RenderBody(rng *rand.Rand) string {
 		}
 		return " "
 	}
-	sb.WriteString("12 dict begin\n")
+	if !m.NoDict {
+		sb.WriteString("12 dict begin\n")
+	}
 	if !m.NoBegin {
 		sb.WriteString("begincmap\n")
 	}
@@ -279,10 +284,14 @@ func (m *MCMap) RenderBody(rng *rand.Rand) string {
 		fmt.Fprintf(&sb, "end%s\n", b.Kind)
 	}
 	sb.WriteString("endcmap\n")
+	end := "end\n"
+	if m.NoDict {
+		end = ""
+	}
 	if m.ResKey != "" {
-		fmt.Fprintf(&sb, "/%s currentdict /CMap defineresource pop\nend\n", m.ResKey)
+		fmt.Fprintf(&sb, "/%s currentdict /CMap defineresource pop\n%s", m.ResKey, end)
 	} else {
-		sb.WriteString("CMapName currentdict /CMap defineresource pop\nend\n")
+		sb.WriteString("CMapName currentdict /CMap defineresource pop\n" + end)
 	}
 	return sb.String()
 }
